@@ -683,8 +683,10 @@ func (s *scope) createInstance(descriptor *Descriptor) (any, error) {
 		// Find the primary service to return
 		var primaryService any
 		var storeErr error
+		produced := make(map[string]struct{}, len(registrations))
 		for _, reg := range registrations {
 			value := reg.Value
+			produced[reg.Name] = struct{}{}
 
 			// Convert empty string key to nil for consistent lookup
 			var regKey any
@@ -724,11 +726,37 @@ func (s *scope) createInstance(descriptor *Descriptor) (any, error) {
 			}
 		}
 
+		// A field the constructor left nil yields no service. Like a nil result
+		// of a constructor with several return values it is recorded as such, so
+		// that asking for it does not run the constructor (and replace the other
+		// outputs) again, and so that a Build does not depend on which field of
+		// the result object it happens to ask for first.
+		leftNil := false
+		for _, sibling := range descriptor.family {
+			if sibling.resultFieldName == "" {
+				continue
+			}
+			if _, ok := produced[sibling.resultFieldName]; ok {
+				continue
+			}
+			if sibling == descriptor {
+				leftNil = true
+			}
+			key := instanceKey{Type: sibling.Type, Key: sibling.Key, Group: sibling.Group}
+			if err := s.storeOutput(sibling, key, nil); err != nil {
+				storeErr = err
+			}
+		}
+
 		if storeErr != nil {
 			return nil, storeErr
 		}
 
 		if primaryService == nil {
+			if leftNil {
+				return nil, nil
+			}
+
 			return nil, &ValidationError{
 				ServiceType: descriptor.Type,
 				Cause:       fmt.Errorf("result object produced no services"),
